@@ -432,6 +432,7 @@ func (x *Exec) loadBase(s *State, a *Addr) Val {
 	case BaseGlobal:
 		name, _ := x.E.globalHeap(a.Global)
 		t := x.Heap(s, name)
+		x.typeFacts(s, t, a.Global.Type().(*types.Pointer).Elem(), 0)
 		return TermVal{t}
 	case BaseSlice:
 		return TermVal{a.SliceV}
